@@ -321,6 +321,10 @@ func c18EndToEnd(c *core.Ctx) {
 		{"PKG": "{SRC}", "SRC": "src/*", "STEP": "write"},
 		{"PKG": "pkg.tar", "SRC": "src/*"},
 		{"PKG": "pkg.tar", "SRC": "src/*", "STEP": "write", "MARK": "m2"},
+		// values that are themselves markers of supplied parameters: one pass leaves them literal
+		// (a second pass would turn the first into an accepted chain and rename the second's marker file)
+		{"PKG": "{P2}", "P2": "pkg.tar", "SRC": "src/*", "STEP": "write"},
+		{"PKG": "pkg.tar", "SRC": "src/*", "STEP": "write", "MARK": "{M2}", "M2": "zz"},
 		{},
 	}
 	cn := 0
@@ -404,7 +408,7 @@ func init() {
 	core.Register(&core.Property{
 		ID:    "C18",
 		Level: "exploration",
-		Rule: "seeded layouts whose rule tokens, command tokens, run tokens and (as decoys) names, readme, expires, pubkeys, keys and certificate constraints are glued from the pieces { } A B _ - x {A} {B} {AB} {{A}} {A}{B} {} {C} {A B} {a} {A-1} {x_y}; dictionaries of 0-6 entries with values that contain markers, braces and empty strings, invalid names (space, dot, brace, empty, newline, slash, $); every dictionary is rebuilt 8x in shuffled insertion order; the whole returned layout is compared with the reference substitution (one left-to-right scan, the four field families only). Sequences: families of dictionaries whose glued names/values coincide, applied in 4 orders x 3 rounds in one process. End-to-end: 9 dictionaries x 2 wrappers x 2 entry points on a chain whose rules/command/run contain markers: verdict and executed inspection command must equal those of the pre-substituted re-signed layout. " +
+		Rule: "seeded layouts whose rule tokens, command tokens, run tokens and (as decoys) names, readme, expires, pubkeys, keys and certificate constraints are glued from the pieces { } A B _ - x {A} {B} {AB} {{A}} {A}{B} {} {C} {A B} {a} {A-1} {x_y}; dictionaries of 0-6 entries with values that contain markers, braces and empty strings, invalid names (space, dot, brace, empty, newline, slash, $); every dictionary is rebuilt 8x in shuffled insertion order; the whole returned layout is compared with the reference substitution (one left-to-right scan, the four field families only). Sequences: families of dictionaries whose glued names/values coincide, applied in 4 orders x 3 rounds in one process. End-to-end: 11 dictionaries (two of them with values that are markers of other supplied parameters, where a second pass would flip the verdict or rename the file the inspection creates) x 2 wrappers x 2 entry points on a chain whose rules/command/run contain markers: verdict and executed inspection command must equal those of the pre-substituted re-signed layout. " +
 			"non-trivial = the reference substitution changes the layout; distinct = hash of (layout, dictionary)",
 		Assumptions: []string{"parameter names with non-ASCII letters are not judged (the statement says 'letters')", "nil and empty lists are considered equal when comparing layouts"},
 		Workers:     func(string) int { return 16 },
